@@ -632,7 +632,12 @@ func GenExact3(t *rapid.T, S float64, depth int) *Node {
 		// profile: exact 2D leaf, rotated, moved so that it lies in x >= 0
 		var leaf *Node
 		var ext float64
-		switch x.pick("pleaf", []string{"circle", "box2", "line2"}) {
+		switch x.pick("pleaf", []string{"circle", "box2", "line2", "poly"}) {
+		case "poly":
+			leaf = x.poly()
+			for _, v := range leaf.V {
+				ext = math.Max(ext, math.Hypot(v[0], v[1]))
+			}
 		case "circle":
 			r := x.length("r", 0.05, 1)
 			leaf, ext = &Node{Op: "circle", P: []float64{r}}, r
@@ -667,7 +672,7 @@ func GenExact3(t *rapid.T, S float64, depth int) *Node {
 
 // GenExact2 is the 2D analogue of GenExact3.
 func GenExact2(t *rapid.T, S float64, depth int) *Node {
-	x := &gen{t: t, o: Opts{S: S, NoPoly: true}}
+	x := &gen{t: t, o: Opts{S: S}}
 	n := x.leaf2()
 	for i := 0; i < depth; i++ {
 		switch x.pick("wrap", []string{"xform2", "xform2", "scale2", "offset2"}) {
